@@ -374,6 +374,10 @@ def _exec_probe(net, op, i, ctx, h):
             dk = "NaN-pattern-differs" if what == "nan_pattern" else \
                 "values-differ" if what == "values" else what
             sig = f"{base}|{dk}:{t}|{feature}"
+            if init_results and kind == "runpp" and _is_solution_of(net, ref, kw_ref):
+                # the live result satisfies the power flow equations of the CURRENT network: Newton-Raphson
+                # started from the previous results reached another solution branch (not stale state)
+                sig = f"{base}|other-solution-branch"
             detail = (f"live {kind}({kw}) vs fresh copy {kind}({kw_ref}): {t}.{c} {what} {d}; "
                       f"{len(diffs)} column(s) differ; history since previous probe: {hist}")
     if conclusive:
@@ -405,6 +409,22 @@ def _exec_probe(net, op, i, ctx, h):
         h.last_feature = "other-mode calc" if e_live is None else "failed calc"
         if kind in ("rundcpp", "runopp"):
             h.conv_age = None
+
+
+def _is_solution_of(live, ref, kw_ref):
+    """is the live bus voltage vector a converged solution of the current network? (checked on a scrubbed copy
+    started exactly from it: it must be reproduced)"""
+    import pandapower as pp
+    try:
+        vm, va = live.res_bus.vm_pu, live.res_bus.va_degree
+        if vm.isna().any() != ref.res_bus.vm_pu.isna().any():
+            return False
+        test = oracles.scrubbed_copy(live)
+        kw = {k: v for k, v in kw_ref.items() if k not in ("init", "init_vm_pu", "init_va_degree")}
+        pp.runpp(test, init_vm_pu=vm.fillna(1.0), init_va_degree=va.fillna(0.0), **kw)
+        return not oracles.compare_results(test, live, tables=["res_bus"], rtol=1e-5, atol=1e-5)
+    except Exception:
+        return False
 
 
 def _iterations(net):
